@@ -75,9 +75,8 @@ theorem C01_wrap_conventions (n k : Nat) (hk : k < n) (r : List Nat) :
 
 /-! ### sparse matricization -/
 
-/-- denotation of a sparse matricized tensor at matrix cell `(a, b)`. -/
-def Sptenmat.get [Add α] [Zero α] (M : Sptenmat α) (a b : Nat) : α :=
-  Sparse.get ⟨M.mshape, M.subs, M.vals⟩ [a, b]
+/-! (`Sptenmat.get`, the denotation of a sparse matricized tensor at matrix cell `(a, b)`, is
+defined in Ops/SptenmatGet.lean.) -/
 
 /-- `sptensor.to_sptenmat(r, c)`: same cell placement as the dense matricization; the result
 is well-formed as a sparse matrix and reports shape and split. -/
@@ -111,7 +110,7 @@ theorem C01_kruskal_full [CommSemiring α] (K : Ktensor α) (hK : K.WF) (hN : 1 
 /-- The pinned code could not expand a 1-way Kruskal tensor. -/
 theorem C01_kruskal_full_pinned_counterexample :
     Ktensor.fullG false (⟨[2], [[[1], [3]]]⟩ : Ktensor Int) = .error .reject ∧
-    Ktensor.fullG true (⟨[2], [[[1], [3]]]⟩ : Ktensor Int) = .ok ⟨[2], [2, 6]⟩ := by decide
+    Ktensor.fullG true (⟨[2], [[[1], [3]]]⟩ : Ktensor Int) = .ok ⟨[2], [2, 6]⟩ := ⟨rfl, rfl⟩
 
 example : (⟨[2, 2], [0, 5, 7, 0]⟩ : Dense Int).toSparse = ⟨[2, 2], [[1, 0], [0, 1]], [5, 7]⟩ := by decide
 example : isPermOf ([2] ++ [0, 1]) 3 = true := by decide
